@@ -439,7 +439,7 @@ def main(argv):
 
     # schedule: long caps first; VERIF_SEED only rotates the order of equal-cap harnesses
     sel.sort(key=lambda h: (-int(h["cap"]), (hash((h["id"], seed)) & 0xffff)))
-    outdir = os.path.join(VERIF, "out", prop)
+    outdir = os.path.join(os.environ.get("VERIF_OUT", os.path.join(VERIF, "out")), prop)
     shutil.rmtree(outdir, ignore_errors=True)
     os.makedirs(outdir + "/logs")
     results = []
@@ -514,8 +514,9 @@ def main(argv):
                 rep, detail, case = native_replay(h, tests[:3], [c["desc"] for c in r["failed"]], sc, h["id"])
                 r["replay_detail"] = detail
                 if rep:
-                    os.makedirs(os.path.join(VERIF, "out", "replay", prop), exist_ok=True)
-                    cp = os.path.join(VERIF, "out", "replay", prop, h["id"] + ".json")
+                    rdir_out = os.path.join(os.environ.get("VERIF_OUT", os.path.join(VERIF, "out")), "replay", prop)
+                    os.makedirs(rdir_out, exist_ok=True)
+                    cp = os.path.join(rdir_out, h["id"] + ".json")
                     case["property"] = prop
                     json.dump(case, open(cp, "w"), indent=1)
                     violations.append((r, cp))
@@ -525,7 +526,7 @@ def main(argv):
                 inconclusive.append((r, r["reason"]))
         for r in aux_results:
             if r["status"] == "FAIL":
-                cp = os.path.join(VERIF, "out", "replay", prop, r["id"] + ".json")
+                cp = os.path.join(os.environ.get("VERIF_OUT", os.path.join(VERIF, "out")), "replay", prop, r["id"] + ".json")
                 os.makedirs(os.path.dirname(cp), exist_ok=True)
                 json.dump({"property": prop, "aux": r["id"], "detail": r.get("detail")}, open(cp, "w"), indent=1)
                 violations.append((r, cp))
